@@ -610,19 +610,27 @@ def monitor(ev: list[tuple[Any, ...]]) -> list[tuple[str, str]]:
     return out
 
 
+_JUDGED: set[Any] = set()
+
+
 def oracle(ctx: Ctx, cfg: dict[str, Any], x: S.Exec) -> Any:
     w = x.world
     r = rig()
     lab = label(cfg)
     rep = {"cfg": cfg, **x.schedule()}
+    # the engine's determinism audit re-runs some schedules and judges them again: report / count each schedule once
+    sig = (lab, tuple(x.choices))
+    first = sig not in _JUDGED
+    _JUDGED.add(sig)
+    fail = ctx.fail if first else (lambda *a, **k: None)
     aborted = any(t.abort_raised for t in x.tasks)
     incomplete = x.deadlock or x.livelock
     if x.deadlock:
         blocked = [f"{t.name}@{t.label}" for t in x.tasks if not t.done or t.abort_raised]
-        ctx.fail("deadlock", f"deadlock under {lab}: {blocked}", rep)
+        fail("deadlock", f"deadlock under {lab}: {blocked}", rep)
     for t in x.tasks:
         if t.exc is not None:
-            ctx.fail(f"exception:{t.name.split(':')[-1]}:{type(t.exc).__name__}", f"task {t.name} raised {t.exc!r} under {lab}", rep)
+            fail(f"exception:{t.name.split(':')[-1]}:{type(t.exc).__name__}", f"task {t.name} raised {t.exc!r} under {lab}", rep)
     probe = None
     if not incomplete and not aborted and r.registry._lock.owner is None:
         # sequential probe: one more request on the session after the schedule finished (oracle (d), sequential case)
@@ -633,22 +641,24 @@ def oracle(ctx: Ctx, cfg: dict[str, Any], x: S.Exec) -> Any:
     ev = list(w["ev"])
     closes = sum(1 for e in ev if e[0] == "close")
     for key, text in monitor(ev):
-        ctx.fail(key, f"{text}; harness {lab}; events {ev}", rep)
+        fail(key, f"{text}; harness {lab}; events {ev}", rep)
     if not incomplete and not aborted:
         live = w["sid"] in r.registry._entries
         if not live and closes != 1:
-            ctx.fail("ended-without-close" if closes == 0 else "ended-closed-many", f"session left the registry but the close hook ran {closes} times; harness {lab}; events {ev}", rep)
+            fail("ended-without-close" if closes == 0 else "ended-closed-many", f"session left the registry but the close hook ran {closes} times; harness {lab}; events {ev}", rep)
         if live and closes:
-            ctx.fail("closed-but-registered", f"close hook ran but the session is still registered; harness {lab}; events {ev}", rep)
+            fail("closed-but-registered", f"close hook ran but the session is still registered; harness {lab}; events {ev}", rep)
         for name, (status, err, _c) in w["resp"].items():
             if name == "D":
                 continue
             ran = any(e[0] == "begin" and e[1] == name for e in ev)
             if ran != (status == 200 and not err):
-                ctx.fail("response-mismatch", f"{name}: body ran={ran} but response status={status} error={err}; harness {lab}", rep)
+                fail("response-mismatch", f"{name}: body ran={ran} but response status={status} error={err}; harness {lab}", rep)
     w["detached"] = True
     if incomplete or aborted:
         r.tainted = True
+    if not first:
+        return (tuple(ev), tuple(sorted(w["resp"].items())), probe, x.deadlock)
     ctx.extra["close_hooks"] += closes
     ctx.extra["session_lost_responses"] = ctx.extra.get("session_lost_responses", 0) + sum(1 for n, v in w["resp"].items() if n != "D" and v[1])
     ctx.extra["delete_hits"] = ctx.extra.get("delete_hits", 0) + sum(1 for n, v in w["resp"].items() if n == "D" and v[0] == 204)
@@ -666,6 +676,7 @@ def run(ctx: Ctx) -> None:
     for i, cfg in enumerate(cfgs):
         if not ctx.mine(assign[i]):
             continue
+        _JUDGED.clear()
         st = S.explore(
             ctx, make_setup(cfg), lambda x, cfg=cfg: oracle(ctx, cfg, x), bound=cfg["bound"], label=label(cfg),
             trace=window(cfg), env_cost=cfg["env_cost"],
@@ -681,7 +692,8 @@ def run(ctx: Ctx) -> None:
 
 
 def replay(ctx: Ctx, case: dict[str, Any]) -> None:
-    ctx.extra.update({"close_hooks": 0, "dispatches": 0})
+    ctx.extra.update({"close_hooks": 0, "dispatches": 0, "session_lost_responses": 0, "delete_hits": 0, "probe_dispatched": 0})
     cfg = case["cfg"]
+    _JUDGED.clear()
     x = S.run_one(make_setup(cfg), case["choices"], None, trace=window(cfg), env_cost=cfg["env_cost"])
     oracle(ctx, cfg, x)
